@@ -135,6 +135,18 @@ def ladder_cases(pt, tier):
             vs = [pt.ScratchVar(pt.TealType.uint64) for _ in range(min(n, 250))]
             return pt.Seq(*[v.store(I(i)) for i, v in enumerate(vs)], pt.Add(*[v.load() for v in vs]))
         out.append(("many_vars", min(n, 250), many_vars))
+    # programs that use exactly / almost all 256 slots with r explicitly requested ids: within the limit, so they must compile
+    for total, r in [(256, 1), (256, 6), (256, 128), (255, 3), (250, 20), (129, 128), (256, 256), (200, 100)]:
+        def mixed(total=total, r=r):
+            ids = list(range(0, 2 * r, 2))[:r] if r <= 128 else list(range(r))
+            vs = [pt.ScratchVar(pt.TealType.uint64, i) for i in ids] + [pt.ScratchVar(pt.TealType.uint64) for _ in range(total - r)]
+            half = len(vs) // 2
+
+            @pt.Subroutine(pt.TealType.uint64)
+            def tail():
+                return pt.Seq(*[v.store(I(7)) for v in vs[half:]], pt.Add(I(0), I(0), *[v.load() for v in vs[half:]]))
+            return pt.Seq(*[v.store(I(i)) for i, v in enumerate(vs[:half])], pt.Add(I(0), I(0), *[v.load() for v in vs[:half]]) + tail())
+        out.append(("slots_within_limit", total * 1000 + r, mixed))
     for d in [5, 10, 14, 20, 40, 80, 150, 300]:
         def nest_seq(d=d):
             e = pt.Pop(I(0))
@@ -279,7 +291,7 @@ def run_shard(shard):
             continue
         for v in (6, 10):
             case = {"kind": "ladder", "ladder": name, "param": param, "version": v}
-            outcome(acc, "ladder", case, compile_fn(pt, make, "app", v), wellformed=False, size=param)
+            outcome(acc, "ladder", case, compile_fn(pt, make, "app", v), wellformed=(name == "slots_within_limit"), size=param if name != "slots_within_limit" else None)
     return acc.result()
 
 
